@@ -221,7 +221,10 @@ class Built:
             return lsl.Var(lsl.Calc(self._counted(i, fn), *pos, _name=f"inner_calc_{i}" if custom else "", **kws), dist, name=d["name"])
         raise ValueError(k)
 
-    def build(self, copy=False):
+    def build(self, copy=False, entry="builder"):
+        if entry == "model" and not self.groups and not copy:
+            self.model = lsl.Model(list(self.objs))        # documented shortcut: Model(...) grows the graph through a temporary builder
+            return self.model
         gb = lsl.GraphBuilder()
         gb.add(*self.objs)
         if self.groups:
